@@ -2,6 +2,7 @@
 import numpy as np
 
 import loopchecks as lc
+from common import llit, nlit
 import trainrun as tr
 from stubs import ScriptEnv
 
@@ -69,6 +70,9 @@ def collectors(chk, rng, n):
     from rl_blox.algorithm.reinforce import sample_trajectories
     from rl_blox.blox.function_approximator.mlp import MLP
     from rl_blox.blox.function_approximator.policy_head import SoftmaxPolicy
+    exprs, recs = [], []
+    prow = '(fun r -> "[" ^ sp sn sn r.M.p_obs ^ "," ^ sn r.M.p_reward ^ "," ^ sb r.M.p_term ^ "," ^ sp sn sn r.M.p_boot ^ "]")'
+    arow = '(fun r -> "[" ^ sp sn sn r.M.a_obs ^ "," ^ sn r.M.a_reward ^ "," ^ sb r.M.a_term ^ "," ^ sb r.M.a_trunc ^ "]")'
     for i in range(n):
         script = [(int(rng.choice([1, 2, 3, 5])), str(rng.choice(["term", "trunc"]))) for _ in range(3)]
         pol = SoftmaxPolicy(MLP(3, 2, [], "relu", nnx.Rngs(i)))
@@ -131,10 +135,16 @@ def collectors(chk, rng, n):
                          {"case": case, "env": bad[0], "t": bad[1], "kept": bad[2], "expected": bad[3]})
             if int(gstep) != T * N:
                 chk.fail("C01:a2c.collect_trajectories:count", "returned step counter differs from steps * envs", {"case": case, "returned": int(gstep)})
+            impl_rows = [[[[int(rb.buffer["obs"][t][j][0]), int(rb.buffer["obs"][t][j][1])], int(round(float(rb.buffer["rewards"][t][j]) * 4)),
+                           bool(rb.buffer["terminations"][t][j]), bool(rb.buffer["truncations"][t][j])] for j in range(N)] for t in range(T)]
+            exprs.append(f"(let ((rows, _), _) = M.a2c_run {nlit(T)} {llit(scripts, lc.script_ml)} in sl (sl {arow}) rows)")
+            recs.append(("a2c.collect_trajectories", case, impl_rows))
         # --- PPO collect_trajectories (SAME_STEP autoreset)
         envs = gym.vector.SyncVectorEnv([(lambda s=scripts[j], j=j: ScriptEnv(s, env_id=j, discrete=2, reward_scale=0.25)) for j in range(N)],
                                         autoreset_mode=gym.vector.AutoresetMode.SAME_STEP)
         critic = MLP(3, 1, [], "relu", nnx.Rngs(1))
+        # the critic encodes the observation it is evaluated on: value = 64 * episode + t (exact in float32)
+        nnx.update(critic, jax.tree_util.tree_map(lambda x: jnp.asarray([[64.0], [1.0], [0.0]]) if x.shape == (3, 1) else jnp.zeros_like(x), nnx.state(critic)))
         last, _ = envs.reset(seed=0)
         case = {"collector": "ppo.collect_trajectories", "scripts": scripts, "batch_size": T}
         ok, traj = chk.impl_call("C01:ppo.collect_trajectories:raised", case, ppo.collect_trajectories, envs, pol, critic, jax.random.key(i), T, None, last, 0)
@@ -152,6 +162,16 @@ def collectors(chk, rng, n):
                         chk.fail("C01:ppo.collect_trajectories:kept-transition", "a PPO rollout row differs from the environment's transition",
                                  {"case": case, "env": j, "t": t, "kept_obs": obs[j, t].tolist(), "env_prev_obs": e[1].tolist()})
                         break
+            nv = np.asarray(traj.next_value, dtype=float).reshape(N, T)
+            impl_rows = [[[[int(obs[j, t][0]), int(obs[j, t][1])], int(round(rew[j, t] * 4)), bool(term[j, t]), [int(nv[j, t]) // 64, int(nv[j, t]) % 64]]
+                          for j in range(N)] for t in range(T)]
+            exprs.append(f"(let ((rows, _), _) = M.ppo_run M.ByIndex M.CarryNext {nlit(T)} {llit(scripts, lc.script_ml)} in sl (sl {prow}) rows)")
+            recs.append(("ppo.collect_trajectories", case, impl_rows))
+
+
+    for (what, case, impl), m in zip(recs, chk.model_eval(exprs, per_file=60)):
+        if m != impl:
+            chk.disagree(what, {"case": case, "impl_rows_[t][env]": impl, "model_rows_[t][env]": m})
 
 
 def _episode_lengths(steps):
